@@ -2,6 +2,7 @@ package main
 
 import (
 	"context"
+	"regexp"
 	"encoding/json"
 	"fmt"
 	"math/rand"
@@ -14,6 +15,7 @@ import (
 	"time"
 
 	"github.com/codenotary/immudb/embedded/store"
+	"github.com/codenotary/immudb/embedded/verifhook"
 
 	"verifharness/vh"
 )
@@ -211,10 +213,200 @@ func (r *tvRun) readOnce(rng *rand.Rand) {
 		}
 	}
 	r.mu.Lock()
-	r.reads = append(r.reads, tvEvent{"ev": "Read", "x": x, "lo": lo, "hi": hi, "waited": waited, "q": q, "r": got})
+	r.reads = append(r.reads, tvEvent{"ev": "Read", "x": x, "lo": lo, "hi": hi, "waited": waited, "q": q, "r": got, "final": ""})
 	r.mu.Unlock()
 	r.res.Count("tv:read:"+q.Op+":"+q.Via, 1)
 	r.res.Evaluations++
+}
+
+// finalState logs what every initialised index holds once its snapshot is at index time >= last.
+func (r *tvRun) finalState(tag string, last int, layout string, cfg Cfg, seed int64, run int) bool {
+	w := r.w
+	for x := 1; x <= len(w.idx); x++ {
+		if !w.running[x-1] {
+			continue
+		}
+		snap, err := w.settledSnapshot(x, last)
+		if err != nil {
+			sig := "indexer.indexSince:indexing-does-not-catch-up"
+			if cfg.Bulk > 1 {
+				sig = "indexer.indexSince:MaxBulkSize>1:indexing-does-not-catch-up"
+			}
+			r.res.Violate(sig, fmt.Sprintf("layout %s %s (%s): %v", layout, cfg, tag, err), map[string]interface{}{"layout": layout, "cfg": cfg, "seed": seed, "run": run})
+			return false
+		}
+		ts := int(snap.Ts())
+		got, _ := w.exec(x, last, dumpQuery, snap)
+		snap.Close()
+		r.reads = append(r.reads, tvEvent{"ev": "Read", "x": x, "lo": ts, "hi": ts, "waited": last, "q": dumpQuery, "r": got, "final": tag})
+		r.res.Count("tv:read:dump:final-"+tag, 1)
+		r.res.Evaluations++
+	}
+	return true
+}
+
+func (r *tvRun) writeTrace(out *os.File, hdr tvEvent, committed int) {
+	enc := json.NewEncoder(out)
+	enc.Encode(hdr)
+	for id := 1; id <= committed; id++ {
+		tx, ok := r.commits[id]
+		if !ok {
+			vh.Fatalf("tv: committed tx %d was not acknowledged to any writer", id)
+		}
+		enc.Encode(tvEvent{"ev": "Commit", "id": id, "tx": tx})
+	}
+	for _, e := range r.reads {
+		enc.Encode(e)
+	}
+	r.res.Traces++
+	r.res.Count("tv:events", 1+committed+len(r.reads))
+	for k, v := range r.w.counts {
+		r.res.Count("tv:"+k, v)
+	}
+}
+
+// dumpGate blocks the compaction at the moment the first file of the dump folder (nodes<ts>/00000000.n) is created:
+// the snapshot to dump has been taken, the tree is unlocked.  The driver then commits transactions and waits until
+// they are indexed (into the tree being compacted) before it lets the dump go on.
+type dumpGate struct {
+	armed   atomic.Bool
+	root    string
+	hit     chan string
+	release chan struct{}
+}
+
+var dumpFileRe = regexp.MustCompile(`/nodes\d{16}/0+\.n$`)
+
+func (g *dumpGate) sink(ev string, kv ...interface{}) {
+	if ev != "FCreate" || !g.armed.Load() || len(kv) == 0 {
+		return
+	}
+	name, _ := kv[0].(string)
+	if !strings.HasPrefix(name, g.root) || !dumpFileRe.MatchString(name) {
+		return
+	}
+	g.hit <- name
+	<-g.release
+}
+
+// runTVGated: compactions during which transactions are indexed ON PURPOSE, then Close+Open; the final state of every
+// index is compared with the committed log.  Returns false if no transaction was indexed during a dump (vacuous).
+func runTVGated(layout string, seed int64, run int, dir string, out *os.File, res *vh.Result) bool {
+	done := make(chan struct{})
+	defer close(done)
+	go func() {
+		select {
+		case <-done:
+		case <-time.After(150 * time.Second):
+			vh.Fatalf("gated tv run %d stuck", run)
+		}
+	}()
+	rng := rand.New(rand.NewSource(seed*104729 + int64(run)))
+	cfg := pickCfg(run*7+int(seed)+2, []int{1, 3, 2, 8}[(run+int(seed))%4], layout)
+	cfg.PrepMs = 2
+	cfg.CacheSize = []int{1 << 20, 64}[run%2]
+	idx := layoutIndexes(layout)
+	path := filepath.Join(dir, fmt.Sprintf("tvg%d", run))
+	os.RemoveAll(path)
+	defer os.RemoveAll(path)
+	w := newWorld(cfg, idx, seed, path)
+	w.findMinNode()
+	vh.Must(w.open(), "store.Open")
+	r := &tvRun{w: w, commits: map[int]ATx{}, known: make([]atomic.Int64, len(idx)), res: res, rng: rng}
+	for x := 1; x <= len(idx); x++ {
+		vh.Must(w.start(x), "InitIndexing")
+	}
+	seq := 0
+	commitN := func(n int) {
+		for i := 0; i < n; i++ {
+			if err := r.commitTV(rng, 900+run, seq); err != nil {
+				vh.Fatalf("gated tv commit: %v", err)
+			}
+			seq++
+		}
+	}
+	stuck := func(what string, err error) bool {
+		res.Violate("indexer.indexSince:indexing-does-not-catch-up", fmt.Sprintf("layout %s %s: %s: %v", layout, cfg, what, err),
+			map[string]interface{}{"layout": layout, "cfg": cfg, "seed": seed, "run": run, "gated": true})
+		w.st.Close()
+		return true
+	}
+	commitN(8 + rng.Intn(6))
+	if err := w.waitIndexed(int(w.st.LastCommittedTxID())); err != nil {
+		return stuck("before the compaction", err)
+	}
+	g := &dumpGate{root: path, hit: make(chan string), release: make(chan struct{})}
+	verifhook.SetSink(g.sink)
+	defer verifhook.SetSink(nil)
+	during, compactions := 0, 0
+	rounds := 1 + (run+int(seed))%2
+	for round := 0; round < rounds; round++ {
+		vh.Must(w.st.FlushIndexes(0, true), "FlushIndexes") // a flushed snapshot must exist for the compaction to run
+		g.armed.Store(true)
+		cdone := make(chan error, 1)
+		go func() { cdone <- w.st.CompactIndexes() }()
+	gate:
+		for {
+			select {
+			case <-g.hit:
+				n := 2 + rng.Intn(3)
+				commitN(n)
+				if err := w.waitIndexed(int(w.st.LastCommittedTxID())); err != nil {
+					g.armed.Store(false)
+					g.release <- struct{}{}
+					<-cdone
+					return stuck("transactions committed while a compaction dump is being written", err)
+				}
+				during += n
+				res.Count("tv:gated:dump-gates", 1)
+				g.release <- struct{}{}
+			case err := <-cdone:
+				if err == nil {
+					compactions++
+					res.Count("tv:compact", 1)
+				} else {
+					res.Count("tv:compact-not-done:"+lastWords(err.Error()), 1)
+				}
+				break gate
+			case <-time.After(60 * time.Second):
+				vh.Fatalf("gated tv run %d: compaction neither reaches the gate nor returns", run)
+			}
+		}
+		g.armed.Store(false)
+		for i := 0; i < 4; i++ {
+			r.readOnce(rng) // reads right after the restart of the indexes
+		}
+		commitN(1 + rng.Intn(3))
+	}
+	verifhook.SetSink(nil)
+	res.Count("tv:gated:txs-indexed-during-dump", during)
+	if during == 0 || compactions == 0 {
+		w.st.Close()
+		res.Count("tv:gated:vacuous", 1)
+		return false
+	}
+	committed := int(w.st.LastCommittedTxID())
+	if !r.finalState("quiescent", committed, layout, cfg, seed, run) {
+		w.st.Close()
+		return true
+	}
+	vh.Must(w.reopen(), "Close+Open")
+	if !r.finalState("after-reopen", committed, layout, cfg, seed, run) {
+		w.st.Close()
+		return true
+	}
+	// the index goes on after the restart: more transactions, final state again
+	commitN(2 + rng.Intn(3))
+	committed = int(w.st.LastCommittedTxID())
+	ok := r.finalState("quiescent", committed, layout, cfg, seed, run)
+	w.st.Close()
+	if !ok {
+		return true
+	}
+	r.writeTrace(out, tvEvent{"ev": "Reset", "run": 1000 + run, "layout": layout, "cfg": cfg.String(), "bulk": cfg.Bulk, "compactions": compactions,
+		"gated": true, "during": during}, committed)
+	res.Count("tv:gated:runs", 1)
+	return true
 }
 
 func runTVOne(layout string, seed int64, run int, dir string, out *os.File, res *vh.Result) {
@@ -346,53 +538,43 @@ func runTVOne(layout string, seed int64, run int, dir string, out *os.File, res 
 		}
 		close(stop)
 		rg.Wait()
-		// everything every index holds, at the quiescent point
-		for x := 1; x <= len(idx); x++ {
-			got, ts := w.exec(x, committed, AQuery{Op: "dump", Via: "snap", Flt: []string{}, K: AKey{}, P: AKey{}, Neq: AKey{}, Seek: AKey{}, End: AKey{}}, nil)
-			if strings.HasPrefix(got.St, "err:") {
-				res.Count("tv:read-error:"+lastWords(got.St), 1)
-				continue
-			}
-			r.reads = append(r.reads, tvEvent{"ev": "Read", "x": x, "lo": committed, "hi": ts, "waited": committed,
-				"q": AQuery{Op: "dump", Via: "snap", Flt: []string{}, K: AKey{}, P: AKey{}, Neq: AKey{}, Seek: AKey{}, End: AKey{}}, "r": got})
-			res.Count("tv:read:dump:quiescent", 1)
+		// final quiescent comparison: writers and maintenance have stopped; every index really is at the last
+		// committed transaction (its snapshot says so); everything it holds is logged; once more after Close+Open
+		if !r.finalState("quiescent", committed, layout, cfg, seed, run) {
+			w.st.Close()
+			return
 		}
-		if ph < phases-1 {
-			vh.Must(w.reopen(), "Close+Open")
-			res.Count("tv:reopen", 1)
+		vh.Must(w.reopen(), "Close+Open")
+		res.Count("tv:reopen", 1)
+		if !r.finalState("after-reopen", committed, layout, cfg, seed, run) {
+			w.st.Close()
+			return
 		}
 	}
 	w.st.Close()
 	// the trace: the committed log in id order (what the writers were acknowledged), then the reads
-	enc := json.NewEncoder(out)
-	enc.Encode(tvEvent{"ev": "Reset", "run": run, "layout": layout, "cfg": cfg.String(), "bulk": cfg.Bulk, "compactions": int(ncompact.Load())})
-	for id := 1; id <= committed; id++ {
-		tx, ok := r.commits[id]
-		if !ok {
-			vh.Fatalf("tv run %d: committed tx %d was not acknowledged to any writer", run, id)
-		}
-		enc.Encode(tvEvent{"ev": "Commit", "id": id, "tx": tx})
-	}
-	for _, e := range r.reads {
-		enc.Encode(e)
-	}
-	res.Traces++
-	res.Count("tv:events", 1+committed+len(r.reads))
-	for k, v := range w.counts {
-		res.Count("tv:"+k, v)
-	}
+	r.writeTrace(out, tvEvent{"ev": "Reset", "run": run, "layout": layout, "cfg": cfg.String(), "bulk": cfg.Bulk, "compactions": int(ncompact.Load()),
+		"gated": false, "during": 0}, committed)
 	if run < 2 {
 		res.Sample(map[string]interface{}{"tv_layout": layout, "cfg": cfg.String(), "txs": committed, "reads": len(r.reads), "first_read": r.reads[0]}, 6)
 	}
 }
 
-func runTV(layout string, seed int64, runs int, dir, outp string, res *vh.Result) {
+func runTV(layout string, seed int64, runs, gated int, dir, outp string, res *vh.Result) {
 	out, err := os.Create(outp)
 	vh.Must(err, "create trace")
 	defer out.Close()
 	for i := 0; i < runs; i++ {
 		runTVOne(layout, seed, i, dir, out, res)
 	}
-	res.Distinct += runs
+	for i, attempt := 0, 0; i < gated; attempt++ {
+		if attempt >= gated+6 {
+			vh.Fatalf("no transaction could be indexed during a compaction dump in %d attempts", attempt)
+		}
+		if runTVGated(layout, seed, attempt, dir, out, res) {
+			i++
+		}
+	}
+	res.Distinct += runs + gated
 	_ = context.Background
 }
